@@ -70,7 +70,7 @@ class Sweep:
         q = tier == "quick"
         base = sweep.repo_cases() + sweep.generated_cases(rng, gen_n or (3 if q else 25))
         # regression corpus first
-        self.cases = corpus_cases() + base + sweep.hostile_cases(rng, 6 if q else 60) + sweep.damaged_cases(rng, base, dmg if dmg is not None else (1 if q else 8))
+        self.cases = corpus_cases() + base + sweep.hostile_cases(rng, 6 if q else 60) + sweep.targeted_cases(rng, 6 if q else 40) + sweep.damaged_cases(rng, base, dmg if dmg is not None else (1 if q else 8))
         self.clean = scenario.run_scenarios(self.exe, [c.scn for c in self.cases], timeout_each=20)
         for c in self.cases: res.count("case-" + c.label.split(":")[0] + "-" + c.fmt)
         res.evaluations += len(self.cases)
@@ -80,7 +80,10 @@ class Sweep:
     def run_faults(self):
         if self.faulted is not None: return self.faulted
         idx = list(range(len(self.cases)))
-        if len(idx) > self.maxfault_cases: idx = sorted(self.rng.sample(idx, self.maxfault_cases))
+        if len(idx) > self.maxfault_cases:
+            must = [i for i in idx if getattr(self.cases[i], "all_faults", False)]      # cases built for the fault sweep are always part of it
+            rest = [i for i in idx if i not in set(must)]
+            idx = sorted(must + self.rng.sample(rest, max(0, min(len(rest), self.maxfault_cases - len(must)))))
         plan = []
         for i in idx:
             t = self.clean[i]
@@ -133,7 +136,7 @@ def ledger_oracle(res, sw, which):
     n = 0
     def one(label, sc, t):
         nonlocal n
-        if t.crash or t.hang: return
+        if t.hang or (t.crash and not (which == "contract" and t.viol)): return      # a crash is C02's business, unless a recorded contract violation preceded it
         probs = []
         if which == "ledger":
             if t.ledger.get("live_allocs", 0): probs.append("%d allocation(s) never freed" % t.ledger["live_allocs"])
